@@ -40,8 +40,9 @@ func (c WildCase) pathText() string {
 }
 
 type wildFacts struct {
-	nontrivial bool
-	open       bool
+	nontrivial  bool
+	open        bool
+	excludedD19 bool
 }
 
 type wnode struct {
@@ -149,6 +150,7 @@ func checkWildFacts(c WildCase) (*Violation, wildFacts) {
 		}
 	}
 	var want []any
+	subscriptOpen, nullSelected := false, false
 	if wantErr == "" {
 		for _, x := range sel {
 			switch c.Tail {
@@ -179,6 +181,33 @@ func checkWildFacts(c WildCase) (*Violation, wildFacts) {
 				default:
 					if c.Strict && c.Acc != "**" {
 						wantErr = "strict .a on a scalar"
+					}
+				}
+			case "[0]", "[last]":
+				switch y := x.(type) {
+				case []any:
+					switch {
+					case len(y) > 0 && c.Tail == "[0]":
+						want = append(want, y[0])
+						nullSelected = nullSelected || y[0] == nil
+					case len(y) > 0:
+						want = append(want, y[len(y)-1])
+						nullSelected = nullSelected || y[len(y)-1] == nil
+					case c.Strict && c.Acc != "**":
+						wantErr = "strict subscript out of bounds"
+					case c.Strict:
+						subscriptOpen = true
+					}
+				default:
+					if !c.Strict {
+						want = append(want, x) // lax: a non-array behaves as a one-element array
+						nullSelected = nullSelected || x == nil
+					} else if c.Acc != "**" {
+						wantErr = "strict subscript on a non-array"
+					} else {
+						// below strict .** the statement leaves open whether the mismatch is an
+						// error or is skipped; it is never an element
+						subscriptOpen = true
 					}
 				}
 			case ".*":
@@ -215,6 +244,30 @@ func checkWildFacts(c WildCase) (*Violation, wildFacts) {
 	at := fmt.Sprintf("%q on %s", text, c.Doc)
 	if c.Acc == "**" && c.First == -1 && c.Last != -1 {
 		// left open: only totality is required
+		return nil, f
+	}
+	if nullSelected {
+		// a selected element is JSON null: open finding D19 (C14's) drops it
+		f.excludedD19 = true
+		return nil, f
+	}
+	if subscriptOpen && wantErr == "" {
+		// either a structural error, or exactly the elements of the selected arrays
+		if got.Class == ESupp {
+			return nil, f
+		}
+		if got.Class != EOK {
+			return violf("%s: want a structural error or %v, got %s", at, RenderSeq(want, false), got), f
+		}
+		w, g := RenderSeq(want, false), RenderSeq(got.Items, false)
+		ok := sameSeq(w, g)
+		if f.open {
+			ok = sameMultiset(w, g)
+		}
+		if !ok {
+			return violf("%s: in strict mode a non-array is not subscriptable: the selected arrays give %v (or a structural error), Query returned %v", at, w, g), f
+		}
+		f.nontrivial = true
 		return nil, f
 	}
 	if wantErr != "" {
@@ -314,6 +367,9 @@ func TestC15(t *testing.T) {
 	ev.replayTier(t)
 	record := func(class string, c WildCase, f wildFacts) {
 		ev.Eval(c.pathText()+"\x00"+c.Doc, f.nontrivial)
+		if f.excludedD19 {
+			ev.Excluded("subscript_selects_null_D19")
+		}
 		if f.open {
 			ev.Label("multiset_comparison")
 		} else {
@@ -333,7 +389,7 @@ func TestC15(t *testing.T) {
 			for _, d := range treesWith(n) {
 				for _, sh := range shapes {
 					for _, strict := range []bool{false, true} {
-						for _, tail := range []string{"", ".a", ".*"} {
+						for _, tail := range []string{"", ".a", ".*", "[0]", "[last]"} {
 							if tail != "" && n == maxNodes && maxNodes > 5 {
 								continue
 							}
@@ -363,7 +419,7 @@ func TestC15(t *testing.T) {
 		}
 		sh.Strict = rapid.Bool().Draw(rt, "strict")
 		sh.Doc = doc.Text()
-		sh.Tail = rapid.SampledFrom([]string{"", "", ".a", ".*"}).Draw(rt, "tail")
+		sh.Tail = rapid.SampledFrom([]string{"", "", ".a", ".*", "[0]", "[last]"}).Draw(rt, "tail")
 		sh.UseNumber = rapid.Bool().Draw(rt, "num")
 		v, f := checkWildFacts(sh)
 		record("random", sh, f)
